@@ -129,6 +129,13 @@ func child() {
 func (e *engine) tryTarget(id, class string, cost int, big bool, mk maker, extra func(t *target, r *hlib.Rng, p *prims) error, light bool) {
 	var t *target
 	var err error
+	t0 := time.Now()
+	defer func() {
+		e.classT[class] += time.Since(t0)
+		if os.Getenv("C18_VERBOSE") != "" {
+			fmt.Fprintf(os.Stderr, "c18: target %-60s %6.2fs\n", id, time.Since(t0).Seconds())
+		}
+	}()
 	if p := hlib.Recover(func() { t, err = buildTarget(e.seed, id, class, cost, big, mk, extra) }); p != "" {
 		e.o.Violate("panic while building the sequential oracle of %s: %s", id, trunc(p, 200))
 		e.o.Count("oracle-panic/" + class)
